@@ -91,3 +91,80 @@ def feature_key(case, agg, cube_kind):
     return "%s:%s:fact=%s%s,w=%s,%s" % (
         cube_kind, agg, "cols" if f["values"].ndim == 2 else "1col", "" if f["validity"] is None else "+validity",
         w["kind"], "ignore" if case["ignore_missing"] else "propagate")
+
+
+# --------------------------------------------------------------------------- #
+# the statistics only the array cube offers
+XONLY = ["stddev", "quantile", "min", "max", "corrcoef", "covariance"]
+
+
+def xonly_inputs(rng, n, agg):
+    """Fact + weights valid for the given array-cube-only statistic."""
+    if agg in ("min", "max"):
+        kind = gen.wpick(rng, [("f8", 3), ("i8", 2), ("M8", 1)])
+        if kind == "M8":
+            base = numpy.datetime64("2020-01-01", "s")
+            vals = base + rng.integers(0, 10 ** 6, size=n).astype("timedelta64[s]")
+            density = gen.pick(rng, [0.0, 0.2, 0.6])
+            missing = rng.random(n) < density
+            if rng.random() < 0.5:
+                vals = vals.copy()
+                vals[missing] = numpy.datetime64("NaT")
+                fact = {"values": vals, "validity": None, "dyadic": True}
+            else:
+                fact = {"values": vals, "validity": ~missing, "dyadic": True}
+        else:
+            fact = gen.fact_case(rng, n, k=None, kind=kind)
+        weights = {"kind": "none"}
+    elif agg in ("corrcoef", "covariance"):
+        fact = gen.fact_case(rng, n, k=int(rng.integers(2, 4)), kind="f8", dyadic=False)
+        if agg == "covariance":
+            weights = gen.weight_case(rng, n, cls=gen.pick(rng, ["none", "array", "tuple"]), dyadic=False)
+            # strictly positive weights (a zero weight sum is not a covariance)
+            if weights["kind"] != "none":
+                weights["values"] = numpy.where(numpy.nan_to_num(weights["values"], nan=1.0, posinf=1.0) <= 0, 0.3,
+                                                weights["values"])
+        else:
+            weights = {"kind": "none"}
+    elif agg == "stddev":
+        fact = gen.fact_case(rng, n, k=gen.pick(rng, [None, None, 2, 3]), dyadic=bool(rng.random() < 0.3))
+        weights = gen.weight_case(rng, n, cls=gen.pick(rng, ["none", "none", "array", "tuple"]), dyadic=False)
+        if weights["kind"] != "none":
+            # strictly positive weights (n/(n-1) with zero-weight rows has no textbook reading)
+            weights["values"] = numpy.where(numpy.nan_to_num(weights["values"], nan=1.0, posinf=1.0) <= 0, 0.3,
+                                            weights["values"])
+    else:  # quantile
+        fact = gen.fact_case(rng, n, k=gen.pick(rng, [None, None, 2]), kind="f8")
+        weights = gen.weight_case(rng, n, cls=gen.pick(rng, ["none", "none", "array", "tuple", "scalar"]), dyadic=True)
+        if weights["kind"] in ("array", "tuple"):
+            # strictly positive weights
+            v = weights["values"]
+            weights["values"] = numpy.where(numpy.nan_to_num(v, nan=1.0, posinf=1.0) <= 0, 0.5, v)
+        elif weights["kind"] == "scalar":
+            weights["values"] = float(gen.pick(rng, [0.5, 1.0, 2.0]))
+    return {"fact": fact, "weights": weights, "ignore_missing": bool(rng.random() < 0.5),
+            "p": float(gen.pick(rng, [0, 0.1, 0.25, 0.5, 0.75, 0.9, 1, round(float(rng.random()), 3)]))}
+
+
+def call_x(cube, agg, case, rma):
+    w = gen.weight_arg(case["weights"])
+    ig = case["ignore_missing"]
+    f = gen.fact_arg(case["fact"])
+    if agg in ("min", "max"):
+        return getattr(cube, agg)(f, ignore_missing=ig, return_missing_as=rma)
+    if agg == "quantile":
+        return cube.quantile(f, case["p"], weights=w, ignore_missing=ig, return_missing_as=rma)
+    return getattr(cube, agg)(f, weights=w, ignore_missing=ig, return_missing_as=rma)
+
+
+def call_any(cube, agg, case, rma):
+    if agg in SHARED:
+        return call(cube, agg, case, rma)
+    return call_x(cube, agg, case, rma)
+
+
+def nat_for(case):
+    """return_missing_as for the in-place format: NaT for datetime facts."""
+    if case["fact"]["values"].dtype.kind == "M":
+        return numpy.datetime64("NaT")
+    return NaN
